@@ -77,7 +77,9 @@ class C05(C02):
     quick_runs, thorough_runs = 1000, 8000
     quick_budget_s, thorough_budget_s = 170, 1800
     rule = ("one run = base commit + one scenario family (commits, rebase forms incl. -i, cherry-pick, amend, merge, "
-            "squash, reset, stash, switch, partial commits) with file-name hazards (spaces, quotes, tabs, unicode, leading "
+            "squash, reset, stash, switch, pull, partial commits, revert, mv/rm, and the CI rewrite: server-side squash / rebase "
+            "merge with plain git followed by git-ai ci local merge or squash-authorship in a CI clone, whose notes and the "
+            "remote's are checked too) with file-name hazards (spaces, quotes, tabs, unicode, leading "
             "dash, nested dirs) in 60% of runs; after EVERY git command every note reachable from refs/notes/ai is checked: "
             "one note per object and one tree path per object, parses under an independent Standard-v3 parser, lists only "
             "paths of its commit, 1-based lines within the blob's line count, sorted non-overlapping ranges, every hash has a "
